@@ -366,6 +366,20 @@ TEXTUAL = [
     ("C13", "hals-correction-term-halved", "tensorly/solvers/nnls.py", "                num = UtM[k, :] - tl.dot(UtU[k, :], V) + UtU[k, k] * V[k, :]\n", "                num = UtM[k, :] - tl.dot(UtU[k, :], V) + 0.5 * UtU[k, k] * V[k, :]\n"),
     ("C14", "parafac2-weights-absorbed-only-when-normalising", "tensorly/decomposition/_parafac2.py", "        factors[1] = factors[1] * T.reshape(weights, (1, -1))\n        weights = T.ones(weights.shape, **tl.context(tensor_slices[0]))\n", "        if normalize_factors:\n            factors[1] = factors[1] * T.reshape(weights, (1, -1))\n            weights = T.ones(weights.shape, **tl.context(tensor_slices[0]))\n"),
     ("C14", "parafac2-weights-absorbed-after-projections", "tensorly/decomposition/_parafac2.py", "        factors[1] = factors[1] * T.reshape(weights, (1, -1))\n        weights = T.ones(weights.shape, **tl.context(tensor_slices[0]))\n\n        # Will we be performing a line search iteration?\n        if linesearch and iteration % 2 == 0 and iteration > 5:\n            line_iter = True\n            factors_last = [tl.copy(f) for f in factors]\n        else:\n            line_iter = False\n\n        projections = _compute_projections(\n            tensor_slices, factors, svd, random_state=rng\n        )\n", "        # Will we be performing a line search iteration?\n        if linesearch and iteration % 2 == 0 and iteration > 5:\n            line_iter = True\n            factors_last = [tl.copy(f) for f in factors]\n        else:\n            line_iter = False\n\n        projections = _compute_projections(\n            tensor_slices, factors, svd, random_state=rng\n        )\n        factors[1] = factors[1] * T.reshape(weights, (1, -1))\n        weights = T.ones(weights.shape, **tl.context(tensor_slices[0]))\n"),
+    ("C15", "initialize-tucker-abs-skipped-for-nonneg-init", "tensorly/decomposition/_tucker.py", "factors = [tl.abs(f) for f in factors]", "factors = [f if tl.all(f >= 0) else tl.abs(f) for f in factors]"),
+    ("C01", "partial-unfold-trailing-slice-starts-late", "tensorly/base.py", "    if skip_end:\n        new_shape += [tensor.shape[-i] for i in range(skip_end, 0, -1)]\n", "    new_shape += list(tensor.shape)[skip_begin + len(tensor.shape) - skip_end :]\n"),
+    ("C01", "partial-unfold-leading-off-by-one", "tensorly/base.py", "        new_shape = [tensor.shape[i] for i in range(skip_begin)] + new_shape", "        new_shape = [tensor.shape[i] for i in range(skip_begin - 1)] + new_shape"),
+    ("C13", "active-set-warm-start-shortcut", "tensorly/solvers/nnls.py", "    support_vec = tl.zeros(tl.shape(x_vec), **tl.context(x_vec))\n\n    for iteration in range(n_iter_max):", "    support_vec = tl.zeros(tl.shape(x_vec), **tl.context(x_vec))\n\n    if x is not None and tl.any(active_set) and tl.max(x_gradient[active_set]) <= tol:\n        return x_vec\n\n    for iteration in range(n_iter_max):"),
+    ("C07", "cp-regressor-output-modes-without-ridge", "tensorly/regression/cp_regression.py", "                    inv_term = T.dot(T.transpose(phi), phi) + self.reg_W * T.eye(\n                        phi.shape[1], **T.context(X)\n                    )\n                    W[i] = T.transpose(", "                    inv_term = T.dot(T.transpose(phi), phi)\n                    W[i] = T.transpose("),
+    ("C07", "tucker-regressor-core-without-ridge", "tensorly/regression/tucker_regression.py", "                    T.dot(T.transpose(phi), phi)\n                    + self.reg_W * T.tensor(np.eye(phi.shape[1]), **T.context(X)),", "                    T.dot(T.transpose(phi), phi),"),
+    ("C05", "flip-v-based-argmax-over-wrong-axis", "tensorly/tenalg/svd.py", "        max_abs_rows = tl.argmax(tl.abs(V), axis=1)", "        max_abs_rows = tl.argmax(tl.abs(V), axis=0)"),
+    ("C05", "flip-sign-of-max-plus-min", "tensorly/tenalg/svd.py", "        max_abs_cols = tl.argmax(tl.abs(U), axis=0)\n        signs = tl.sign(\n            tl.tensor(\n                [U[i, j] for (i, j) in zip(max_abs_cols, range(tl.shape(U)[1]))],\n                **tl.context(U),\n            )\n        )", "        signs = tl.sign(tl.max(U, axis=0) + tl.min(U, axis=0))"),
+    ("C05", "flip-argmax-without-abs", "tensorly/tenalg/svd.py", "        max_abs_cols = tl.argmax(tl.abs(U), axis=0)", "        max_abs_cols = tl.argmax(U, axis=0)"),
+    ("C03", "tucker-norm-read-off-the-core", "tensorly/tucker_tensor.py", "    def to_vec(self):\n        return tucker_to_vec(self)\n", "    def to_vec(self):\n        return tucker_to_vec(self)\n\n    def norm(self):\n        return tl.norm(self.core)\n"),
+    ("C06", "hals-last-swept-mode-by-position", "tensorly/decomposition/_nn_cp.py", "            if normalize_factors and mode != modes[-1]:", "            if normalize_factors and mode != len(modes) - 1:"),
+    ("C12", "monotone-decreasing-flips-all-axes-on-entry", "tensorly/tenalg/proximal.py", "    tensor_mon = tl.copy(tensor)\n    if decreasing:\n        tensor_mon = tl.flip(tensor_mon, axis=0)", "    tensor_mon = tl.copy(tensor)\n    if decreasing:\n        tensor_mon = tl.flip(tensor_mon)"),
+    ("C20", "correlation-index-conjugates-the-product", "tensorly/metrics/similarity.py", "    c_prod_mtx = tl.abs(tl.matmul(tl.conj(tl.transpose(x1)), x2))", "    c_prod_mtx = tl.abs(tl.conj(tl.matmul(tl.transpose(x1), x2)))"),
+    ("C19", "plsr-predict-centres-with-batch-mean", "tensorly/regression/cp_plsr.py", "        X = T.copy(X)\n        X -= self.X_mean_\n        X_projection", "        X = T.copy(X)\n        X -= T.mean(X, axis=0)\n        X_projection"),
     ("C03", "cp-ctor-skips-validation", "tensorly/cp_tensor.py", "        shape, rank = _validate_cp_tensor(cp_tensor)\n        weights, factors = cp_tensor\n", "        weights, factors = cp_tensor\n        shape, rank = tuple(f.shape[0] for f in factors), factors[0].shape[1]\n"),
     ("C03", "tt-vec-of-other-family", "tensorly/tt_tensor.py", "    return tl.tensor_to_vec(tt_to_tensor(factors))", "    return tl.tensor_to_vec(tt_to_tensor(factors[::-1]))"),
     ("C03", "tucker-unfolded-wrong-mode", "tensorly/tucker_tensor.py", "        mode,\n    )", "        mode + 1,\n    )"),
@@ -462,10 +476,12 @@ TEXTUAL_TWINS = [
     ("C04", "cp-normalize-commuted-product", "tensorly/cp_tensor.py", "        weights = weights * scales\n        normalized_factors", "        weights = scales * weights\n        normalized_factors"),
     ("C04", "tucker-normalize-scale-first", "tensorly/tucker_tensor.py", "        normalized_factors.append(factor / tl.reshape(scales_non_zero, (1, -1)))", "        unit_factor = factor / tl.reshape(scales_non_zero, (1, -1))\n        normalized_factors.append(unit_factor)"),
     ("C04", "flip-sign-guard-on-receiving-factor-too", "tensorly/cp_tensor.py", "    weight_signs = T.sign(weights)\n", "    weight_signs = T.sign(weights)\n    weight_signs = T.where(weight_signs == 0, T.ones(T.shape(weight_signs), **T.context(weight_signs)), weight_signs)\n"),
+    ("C07", "cp-regressor-ridge-term-named", "tensorly/regression/cp_regression.py", "                    inv_term = T.dot(T.transpose(phi), phi) + self.reg_W * T.eye(\n                        phi.shape[1], **T.context(X)\n                    )\n                    W[i] = T.transpose(", "                    ridge = self.reg_W * T.eye(phi.shape[1], **T.context(X))\n                    inv_term = T.dot(T.transpose(phi), phi) + ridge\n                    W[i] = T.transpose("),
     ("C07", "parafac-gram-weights-commuted", "tensorly/decomposition/_cp.py", "                tl.reshape(weights, (-1, 1))\n                * pseudo_inverse\n                * tl.reshape(weights, (1, -1))\n            )\n            mttkrp = unfolding_dot_khatri_rao(tensor, (weights, factors), mode)\n\n            factor = tl.transpose(", "                pseudo_inverse\n                * tl.reshape(weights, (-1, 1))\n                * tl.reshape(weights, (1, -1))\n            )\n            mttkrp = unfolding_dot_khatri_rao(tensor, (weights, factors), mode)\n\n            factor = tl.transpose("),
     ("C07", "parafac-linesearch-guard-flipped-operands", "tensorly/decomposition/_cp.py", "            if (new_rec_error / new_norm_tensor) < rec_errors[-1]:", "            if rec_errors[-1] > (new_rec_error / new_norm_tensor):"),
     ("C07", "tr-als-normal-eq-named-transpose", "tensorly/decomposition/_tr_als.py", "                rhs_mat = tl.matmul(design_mat_tr, tensor_unf)", "                rhs_mat = tl.dot(design_mat_tr, tensor_unf)"),
     ("C13", "hals-increment-form-with-full-denominator", "tensorly/solvers/nnls.py", "                newV = tl.clip(num / den, a_min=epsilon)", "                newV = tl.clip(V[k, :] + (num - den * V[k, :]) / den, a_min=epsilon)"),
+    ("C13", "active-set-rejects-empty-problem-early", "tensorly/solvers/nnls.py", "    support_vec = tl.zeros(tl.shape(x_vec), **tl.context(x_vec))\n\n    for iteration in range(n_iter_max):", "    support_vec = tl.zeros(tl.shape(x_vec), **tl.context(x_vec))\n\n    if tl.shape(UtU)[0] == 0:\n        raise ValueError(\"empty problem\")\n\n    for iteration in range(n_iter_max):"),
     ("C13", "hals-update-as-increment", "tensorly/solvers/nnls.py", "                newV = tl.clip(num / den, a_min=epsilon)", "                step = (num - den * V[k, :]) / den\n                newV = tl.clip(V[k, :] + step, a_min=epsilon)"),
     ("C13", "fista-gradient-reordered", "tensorly/solvers/nnls.py", "                -UtM + tl.dot(UtU, x_update) + sparsity_coef + 2 * ridge_coef * x_update\n", "                tl.dot(UtU, x_update) - UtM + 2 * ridge_coef * x_update + sparsity_coef\n"),
     ("C12", "hard-threshold-zero-count-returns-zeros", "tensorly/tenalg/proximal.py", "    tensor_vec = tl.copy(tl.tensor_to_vec(tensor))\n    sorted_indices", "    if number_of_non_zero < 1:\n        return tensor * 0\n    tensor_vec = tl.copy(tl.tensor_to_vec(tensor))\n    sorted_indices"),
@@ -476,6 +492,11 @@ TEXTUAL_TWINS = [
     ("C20", "permute-factors-both-directions-flipped", "tensorly/cp_tensor.py", "            ref_cp_tensor.factors, tensors_to_permute[i].factors\n        )\n        col = T.tensor(col, dtype=T.int64)", "            ref_cp_tensor.factors, tensors_to_permute[i].factors\n        )\n        col = [int(c) for c in col]\n        col = T.tensor(col, dtype=T.int64)"),
     ("C20", "congruence-normalise-via-local", "tensorly/metrics/factors.py", "        mat1 = mat1 / T.norm(mat1, axis=0)\n", "        norms1 = T.norm(mat1, axis=0)\n        mat1 = mat1 / norms1\n"),
     ("C20", "r2-via-ratio", "tensorly/metrics/regression.py", "    return 1 - T.norm(X_predicted - X_original) ** 2.0 / T.norm(X_original) ** 2.0", "    return 1 - (T.norm(X_predicted - X_original) / T.norm(X_original)) ** 2.0"),
+    ("C05", "flip-zip-order-swapped-consistently", "tensorly/tenalg/svd.py", "                [U[i, j] for (i, j) in zip(max_abs_cols, range(tl.shape(U)[1]))],", "                [U[i, j] for (j, i) in zip(range(tl.shape(U)[1]), max_abs_cols)],"),
+    ("C03", "tucker-norm-of-own-reconstruction", "tensorly/tucker_tensor.py", "    def to_vec(self):\n        return tucker_to_vec(self)\n", "    def to_vec(self):\n        return tucker_to_vec(self)\n\n    def norm(self):\n        return tl.norm(self.to_tensor())\n"),
+    ("C06", "hals-last-swept-mode-named", "tensorly/decomposition/_nn_cp.py", "            if normalize_factors and mode != modes[-1]:", "            last_swept_mode = modes[-1]\n            if normalize_factors and mode != last_swept_mode:"),
+    ("C20", "correlation-index-conjugates-second-operand", "tensorly/metrics/similarity.py", "    c_prod_mtx = tl.abs(tl.matmul(tl.conj(tl.transpose(x1)), x2))", "    c_prod_mtx = tl.abs(tl.matmul(tl.transpose(x1), tl.conj(x2)))"),
+    ("C19", "plsr-predict-centres-out-of-place", "tensorly/regression/cp_plsr.py", "        X = T.copy(X)\n        X -= self.X_mean_\n        X_projection", "        X = X - self.X_mean_\n        X_projection"),
     ("C05", "symeig-normalise-before-product", "tensorly/tenalg/svd.py", "        U = tl.dot(matrix, V) / tl.reshape(S, (1, -1))", "        U = tl.dot(matrix, V / tl.reshape(S, (1, -1)))"),
     ("C05", "flip-sign-broadcast-spelled-differently", "tensorly/tenalg/svd.py", "        U = U * signs\n        if tl.shape(V)[0] > tl.shape(U)[1]:", "        U = signs * U\n        if tl.shape(V)[0] > tl.shape(U)[1]:"),
     ("C09", "tt-svd-carry-via-dot-diag", "tensorly/decomposition/_tt.py", "        unfolding = tl.reshape(S, (-1, 1)) * V\n\n    # Getting the last factor", "        unfolding = V * tl.reshape(S, (-1, 1))\n\n    # Getting the last factor"),
@@ -484,6 +505,8 @@ TEXTUAL_TWINS = [
     ("C05", "nndsvd-positive-part-via-maximum", "tensorly/tenalg/svd.py", "        x_p, y_p = tl.clip(x, a_min=0.0), tl.clip(y, a_min=0.0)", "        x_p, y_p = tl.abs(tl.clip(x, a_min=0.0)), tl.clip(y, a_min=0.0)"),
     ("C04", "cp-mode-dot-contraction-into-weights-stored-back", "tensorly/cp_tensor.py", "        factor = T.dot(matrix_or_vector, factor)\n        mode = max(mode - 1, 0)\n        factors[mode] *= factor\n", "        weights = weights * T.dot(matrix_or_vector, factor)\n        if not copy:\n            cp_tensor.weights = weights\n"),
     ("C14", "parafac2-weights-reset-with-ones-like", "tensorly/decomposition/_parafac2.py", "        weights = T.ones(weights.shape, **tl.context(tensor_slices[0]))\n", "        weights = T.ones(T.shape(weights), **tl.context(tensor_slices[0]))\n"),
+    ("C10", "initialize-tucker-abs-skipped-for-nonneg-init", "tensorly/decomposition/_tucker.py", "factors = [tl.abs(f) for f in factors]", "factors = [f if tl.all(f >= 0) else tl.abs(f) for f in factors]"),
+    ("C01", "partial-unfold-shape-by-slices", "tensorly/base.py", "    if skip_begin:\n        new_shape = [tensor.shape[i] for i in range(skip_begin)] + new_shape\n\n    if skip_end:\n        new_shape += [tensor.shape[-i] for i in range(skip_end, 0, -1)]\n", "    shape = list(tl.shape(tensor))\n    new_shape = shape[:skip_begin] + new_shape + shape[len(shape) - skip_end :]\n"),
     ("C01", "partial-fold-del-by-position", "tensorly/base.py", "    mode_dim = transposed_shape.pop(skip_begin + mode)", "    mode_dim = transposed_shape.pop(skip_begin + mode)\n    _n_axes = len(transposed_shape)"),
 ]
 
